@@ -99,6 +99,12 @@ REQUIRED_CLASSES = [
     'choppers_2',
     'choppers_3',
     'choppers_5',
+    'snapshots_intact',
+    'history_node',
+    'history_rejected',
+    'history_same_distance_chop',
+    'history_zero_step',
+    'history_recompared',
 ]
 
 ALPHA = clip.alpha_from(sc.constants.m_n.value, sc.constants.h.value)
@@ -213,6 +219,10 @@ def cases(tier):
         for lad in [DISTANCES] + ([(6.3, 6.3, 10.0, 23.7, 23.7)] if thorough else []):
             for ps in itertools.product(P_WIDE, repeat=5):
                 add(pu, list(zip(lad, ps, strict=True)))
+    # branching histories (each is a long case): spread evenly over the list so that they land in different work items
+    hist = history_cases(tier)
+    for i, h in enumerate(hist):
+        out.insert((i + 1) * len(out) // (len(hist) + 1), h)
     return out
 
 
@@ -253,6 +263,54 @@ def frame_digest(frame):
     return ';'.join(parts)
 
 
+class Abort(Exception):
+    """The objects the rest of the case builds on are corrupted (already reported); stop the case."""
+
+
+MAX_SUBFRAMES = 512  # the alphabet yields at most 2^5 pieces plus touching segments per frame
+
+
+def _snapshot(frame, label):
+    items = []
+    for sub in frame.subframes:
+        tv, wv = sub.time, sub.wavelength
+        ta, wa = tv.values, wv.values  # views into the library's buffers
+        items.append((sub, tv, wv, ta, wa, ta.tobytes(), wa.tobytes(), ta.shape, wa.shape))
+    return {
+        'frame': frame,
+        'label': label,
+        'subs': frame.subframes,
+        'items': items,
+        'dist': frame.distance,
+        'dval': float(frame.distance.value),
+        'dunit': str(frame.distance.unit),
+    }
+
+
+def _snapshot_intact(snap):
+    """True iff the frame still holds, bit for bit, what it held when the snapshot was taken."""
+    f = snap['frame']
+    items = snap['items']
+    subs = f.subframes
+    if len(subs) != len(items):
+        return False
+    if str(f.distance.unit) != snap['dunit'] or float(f.distance.value) != snap['dval']:
+        return False
+    for sub, (s0, tv, wv, ta, wa, tb, wb, tsh, wsh) in zip(subs, items, strict=True):
+        if sub is s0 and sub.time is tv and sub.wavelength is wv:
+            # same objects: the stored views see any in-place change
+            if ta.shape != tsh or wa.shape != wsh or ta.tobytes() != tb or wa.tobytes() != wb:
+                return False
+        else:
+            t, w = sub.time, sub.wavelength
+            if str(t.unit) != 's' or str(w.unit) != 'angstrom':
+                return False
+            t, w = t.values, w.values
+            if t.shape != tsh or w.shape != wsh or t.tobytes() != tb or w.tobytes() != wb:
+                return False
+    return True
+
+
 class Ctx:
     """Per-case state: the model, tolerances, counters."""
 
@@ -278,9 +336,11 @@ class Ctx:
         self._model = {}
         self.digests = set()
         self.reported = set()
+        self.snaps = {}  # id(frame) -> snapshot (the frame is kept alive by the snapshot)
+        self.seqs = []
         # Frame.bounds() is exercised on the final frame of the 0/1-chopper cases and of the cases
         # whose choppers all use the same pattern (bounded number of calls per process, see check_regular)
-        self.bounds_here = len({p for _, p in case['choppers']}) <= 1
+        self.bounds_here = 'choppers' in case and len({p for _, p in case['choppers']}) <= 1
         # lattice strictly inside the pulse (emission space)
         i = (2 * np.arange(NL) + 1) / (2 * NL)
         self.lat_t0 = np.repeat(self.tmin + (self.tmax - self.tmin) * i, NL)
@@ -296,6 +356,40 @@ class Ctx:
 
     def tscale(self, distance):
         return max(abs(self.tmin), abs(self.tmax)) + ALPHA_F * self.lmax * abs(distance)
+
+    # -- persistent-object semantics -----------------------------------------------------
+    def watch(self, seq, label):
+        """Remember every frame of a sequence (byte snapshot of all subframe arrays) and the sequence's frame list."""
+        frames = list(seq.frames)
+        self.seqs.append((seq, [id(f) for f in frames], label))
+        for k, f in enumerate(frames):
+            if len(f.subframes) > MAX_SUBFRAMES:
+                self.viol_once('Frame.chop', 'subframe_explosion', f'{label}: frame {k} has {len(f.subframes)} subframes')
+                raise Abort
+            if id(f) not in self.snaps:
+                self.snaps[id(f)] = _snapshot(f, f'frame {k} of {label}')
+
+    def verify(self, site, after):
+        """No operation may change a frame or a sequence obtained earlier."""
+        self.rec.evals += 1
+        for seq, ids, label in self.seqs:
+            if [id(f) for f in seq.frames] != ids:
+                self.viol_once(site, 'earlier_sequence_modified', f'after {after}: the frame list of {label} changed ({len(ids)} -> {len(seq.frames)} frames)')
+                raise Abort
+        for snap in self.snaps.values():
+            self.rec.validated += 1
+            if not _snapshot_intact(snap):
+                f = snap['frame']
+                self.viol_once(
+                    site,
+                    'earlier_frame_modified',
+                    f'after {after}: {snap["label"]} (an object obtained earlier) changed: it had {len(snap["items"])} subframe(s) at '
+                    f'{snap["dval"]} {snap["dunit"]}, now {len(f.subframes)} at {float(f.distance.value)} {f.distance.unit}; '
+                    f'first subframe before: {[np.frombuffer(snap["items"][0][5]).tolist(), np.frombuffer(snap["items"][0][6]).tolist()] if snap["items"] else None}, '
+                    f'now: {[f.subframes[0].time.values.tolist(), f.subframes[0].wavelength.values.tolist()] if f.subframes else None}',
+                )
+                raise Abort
+        self.rec.cls('snapshots_intact')
 
     def viol_once(self, site, kind, msg, **sub):
         key = (site, kind, sub.get('cause'))
@@ -319,15 +413,17 @@ def distinct_times(frame):
     return out
 
 
-def resolve_windows(ctx, distance, pattern, arriving):
-    """Symbolic pattern -> list of float (open, close)."""
-    applied = tuple(range(len(ctx.mchops)))
+def resolve_windows(ctx, distance, pattern, arriving, applied=None):
+    """Symbolic pattern -> list of float (open, close).  ``applied``: the model choppers that shaped the frame the
+    fractions refer to (default: all resolved so far); ``arriving`` is only needed for the 'v' symbols."""
+    if applied is None:
+        applied = tuple(range(len(ctx.mchops)))
     pieces = [p for p in ctx.model(applied) if float(p.area) > ctx.atol_area]
     if not pieces:
         pieces = ctx.model(())
     ts = [t for p in pieces for t, _ in clip.arrival(p.verts, ALPHA, Fr(distance))]
     lo, hi = min(ts), max(ts)
-    vt = distinct_times(arriving)
+    vt = distinct_times(arriving) if arriving is not None else []
 
     def point(sym):
         kind, a, b = sym
@@ -607,6 +703,17 @@ def frames_eq(a, b):
 
 def run_case(case, rec):
     ctx = Ctx(case, rec)
+    try:
+        if case.get('kind') == 'history':
+            _run_history(ctx, case, rec)
+        else:
+            _run_cascade(ctx, case, rec)
+    except Abort:
+        rec.cls('case_aborted')
+    rec.states += len(ctx.digests)
+
+
+def _run_cascade(ctx, case, rec):
     spec = case['choppers']
     n = len(spec)
     rec.cls(f'choppers_{n}')
@@ -617,9 +724,11 @@ def run_case(case, rec):
 
     # ---- resolve the windows chopper by chopper, chopping incrementally with the real code
     inc = ctx.seq0
+    ctx.watch(ctx.seq0, 'from_source_pulse(...)')
     for ci, (d, pat) in enumerate(spec):
         arriving = inc[-1].propagate_to(m(d))
         rec.transitions += 1
+        ctx.verify('Frame.propagate_to', f'frames[-1].propagate_to({d} m)')
         wins = resolve_windows(ctx, d, pat, arriving)
         ctx.windows.append(wins)
         ctx.mchops.append(clip.Chop(float(d), wins))
@@ -627,6 +736,8 @@ def run_case(case, rec):
         ctx.rchops.append(ch)
         inc = inc.chop([ch])
         rec.transitions += 1
+        ctx.verify('FrameSequence.chop', f'chop([chopper {ci} at {d} m]) on the sequence ending at {float(inc[-2].distance.value) if len(inc) > 1 else 0.0} m')
+        ctx.watch(inc, f'source.chop(choppers 0..{ci} one by one)')
         # exact touches: the touching point / segment must survive as a subframe
         out = frame_arrays(inc[-1])
         for t, lam in frame_arrays(arriving):
@@ -658,6 +769,8 @@ def run_case(case, rec):
     # ---- canonical program: one chop call, then propagate to the final distance
     can = ctx.seq0.chop(list(ctx.rchops))
     rec.transitions += n
+    ctx.verify('FrameSequence.chop', 'source.chop(all choppers)')
+    ctx.watch(can, 'source.chop(all choppers)')
     if len(can) != n + 1 or len(inc) != n + 1:
         rec.viol('FrameSequence.chop', 'frame_count', f'{len(can)} / {len(inc)} frames for {n} choppers')
         return
@@ -672,6 +785,8 @@ def run_case(case, rec):
         check_against_model(ctx, can[k], allc[:k], f'frame {k} (d={fd})', 'Frame.chop' if k else 'FrameSequence.from_source_pulse', lattice=(k == n or k == 0))
     finseq = can.propagate_to(final_d)
     rec.transitions += 1
+    ctx.verify('FrameSequence.propagate_to', f'chop(all).propagate_to({FINAL} m)')
+    ctx.watch(finseq, f'source.chop(all choppers).propagate_to({FINAL} m)')
     final = finseq[-1]
     if len(finseq) != n + 2:
         ctx.viol_once('FrameSequence.propagate_to', 'frame_count', f'{len(finseq)} frames')
@@ -720,6 +835,7 @@ def run_case(case, rec):
             except Exception as e:  # noqa: BLE001 - any refusal of a permuted list is order dependence
                 ctx.viol_once('FrameSequence.chop', 'order_dependence', f'listing order {perm} raises {type(e).__name__}: {e}', perm=list(perm))
                 continue
+            ctx.verify('FrameSequence.chop', f'source.chop(listing order {perm})')
             if distinct:
                 ok = len(r) == len(can) and all(frames_eq(r[k], can[k]) and same_vertices(ctx, frame_arrays(r[k]), frame_arrays(can[k]), dists[k - 1] if k else 0.0) for k in range(len(can)))
                 rec.validated += len(can)
@@ -755,6 +871,7 @@ def run_case(case, rec):
         else:
             if judge_final(f, f'chop({k}).propagate_to({mid} m).chop({n - k})', 'FrameSequence.propagate_to', 'propagate_between_chops', exact_path=False):
                 rec.cls('split_propagate_equal')
+        ctx.verify('FrameSequence.chop', f'chop in two calls / with a propagate_to between (split after {k})')
         # against the beam
         try:
             r = ctx.seq0.chop(b).chop(a)
@@ -767,6 +884,7 @@ def run_case(case, rec):
             f = r.propagate_to(final_d)[-1]
             if judge_final(f, f'chop({dists[k:]}).chop({dists[:k]})', 'Frame.chop', 'backward_chop_wrong', exact_path=False):
                 rec.cls('backward_same_distance_equal' if dists[0] == dists[-1] else 'backward_accepted_equal')
+        ctx.verify('Frame.chop', f'chop({dists[k:]}).chop({dists[:k]})')
     if n:
         try:
             finseq.chop([ctx.rchops[0]])
@@ -792,9 +910,11 @@ def run_case(case, rec):
         ok2 = judge_final(f2, f'Frame.propagate_to({dm}).propagate_to({FINAL})', 'Frame.propagate_to', 'two_step_vs_one_step', exact_path=True, regular=fwd)
         if ok1 and ok2:
             rec.cls('two_step_equal')
+        ctx.verify('FrameSequence.propagate_to', f'propagate_to({dm} m).propagate_to({FINAL} m)')
     # array of distances
     arr_seq = can.propagate_to(sc.array(dims=['distance'], values=[(dl + FINAL) / 2, FINAL], unit='m'))
     rec.transitions += 1
+    ctx.verify('FrameSequence.propagate_to', 'propagate_to(array of distances)')
     af = arr_seq[-1]
     a_arr = frame_arrays(af)
     okarr = len(a_arr) == len(fin_arr)
@@ -832,5 +952,156 @@ def run_case(case, rec):
             applied = [i for i in allc if dists[i] <= d]
             check_against_model(ctx, f, applied, f'{sname}[{d} m]', 'FrameSequence.__getitem__', lattice=(seq is can and label != 'index_at_chopper'))
             rec.cls(label)
+        ctx.verify('FrameSequence.__getitem__', f'indexing at {d} m')
 
-    rec.states += len(ctx.digests)
+
+# ---------------------------------------------------------------------------------------
+# branching histories from a shared base sequence (persistent-object semantics)
+
+# operation alphabet; 'S1'/'S2' sit at the distance of the base's last frame (second disk of a double-disk chopper,
+# or a chopper at the source position when there is no base chopper), 'Z' at the source, 'F' downstream
+HIST_CHOPPERS = {'S1': ('base', 'close'), 'S2': ('base', 'shared'), 'Z': (0.0, 'both'), 'F': (23.7, 'open')}
+HIST_OPS = [['chop', 'S1'], ['chop', 'S2'], ['chop', 'Z'], ['chop', 'F'], ['prop', 'same'], ['prop', 30.0]]
+HIST_BASES = {
+    'quick': [[], [[0.0, 'open']], [[6.3, 'open']], [[6.3, 'shared']]],
+    'thorough': [[], [[0.0, 'open']], [[6.3, 'open']], [[6.3, 'shared']], [[0.0, 'shared']], [[10.0, 'unsorted']]],
+}
+
+
+def history_cases(tier):
+    thorough = tier == 'thorough'
+    pulses = ['ess', 'wide12', 'wide', 'narrow'] if thorough else ['ess', 'wide12']
+    return [
+        {'kind': 'history', 'pulse': pu, 'base': base, 'ops': HIST_OPS, 'depth': 4 if thorough else 3}
+        for base in HIST_BASES[tier]
+        for pu in pulses
+    ]
+
+
+def _run_history(ctx, case, rec):
+    """BFS over every sequence of operations (up to case['depth']) applied to one shared base sequence.  Every node
+    keeps its FrameSequence alive; after every single operation *all* frames and sequences obtained so far must be
+    bit-for-bit what they were (so their comparison with the reference still stands), the new frame is compared with
+    the exact reference, and at the end every frame of every sequence is compared with its reference once more."""
+    rec.cls('history_case')
+    ctx.watch(ctx.seq0, 'from_source_pulse(...)')
+    # ---- base sequence
+    seq = ctx.seq0
+    meta = [(0.0, ())]
+    for ci, (d, pat) in enumerate(case['base']):
+        arriving = seq[-1].propagate_to(m(d))
+        wins = resolve_windows(ctx, d, pat, arriving)
+        ctx.windows.append(wins)
+        ctx.mchops.append(clip.Chop(float(d), wins))
+        ctx.rchops.append(make_chopper(d, wins))
+        seq = seq.chop([ctx.rchops[-1]])
+        rec.transitions += 2
+        meta.append((float(d), (*meta[-1][1], ci)))
+        ctx.verify('FrameSequence.chop', f'base: chop([chopper at {d} m])')
+        ctx.watch(seq, 'base')
+    d_base = meta[-1][0]
+    # ---- the choppers of the alphabet, windows as fractions of the *unchopped* pulse's time range at their distance
+    index = {}
+    for name, (d, pat) in HIST_CHOPPERS.items():
+        d = d_base if d == 'base' else d
+        wins = resolve_windows(ctx, d, pat, None, applied=())
+        index[name] = len(ctx.mchops)
+        ctx.windows.append(wins)
+        ctx.mchops.append(clip.Chop(float(d), wins))
+        ctx.rchops.append(make_chopper(d, wins))
+    nodes = [{'seq': seq, 'meta': meta, 'path': 'base', 'depth': 0}]
+    for k, (d, applied) in enumerate(meta):
+        check_against_model(ctx, seq[k], applied, f'base frame {k}', 'FrameSequence.chop', lattice=True)
+
+    def observe(node):
+        """inspection must not change anything either: int index, distance index, Frame-level calls on a held frame"""
+        sq, (d_last, applied) = node['seq'], node['meta'][-1]
+        path = node['path']
+        for d in (d_last, FINAL):
+            f = sq[m(d)]
+            rec.transitions += 1
+            check_against_model(ctx, f, applied, f'{path}[{d} m]', 'FrameSequence.__getitem__', lattice=False)
+        ctx.verify('FrameSequence.__getitem__', f'{path}[{d_last} m] and [{FINAL} m]')
+        held = sq[len(sq) - 1]
+        f = held.propagate_to(m(d_last))
+        check_against_model(ctx, f, applied, f'{path}[-1].propagate_to({d_last} m)', 'Frame.propagate_to', lattice=False)
+        ci = index['S1']
+        if float(ctx.mchops[ci].distance) >= d_last:
+            f = held.chop(ctx.rchops[ci])
+            check_against_model(ctx, f, (*applied, ci), f'{path}[-1].chop(S1)', 'Frame.chop', lattice=False)
+            if float(ctx.mchops[ci].distance) == d_last:
+                rec.cls('history_same_distance_chop')
+        rec.transitions += 2
+        ctx.verify('Frame.chop', f'{path}[-1].propagate_to({d_last} m) / [-1].chop(S1)')
+
+    observe(nodes[0])
+    frontier = nodes
+    for depth in range(1, case['depth'] + 1):
+        nxt = []
+        for node in frontier:
+            d_last, applied = node['meta'][-1]
+            for op, arg in case['ops']:
+                rec.transitions += 1
+                if op == 'chop':
+                    ci = index[arg]
+                    dc = float(ctx.mchops[ci].distance)
+                    path = f'{node["path"]}.chop([{arg}@{dc}])'
+                    try:
+                        new = node['seq'].chop([ctx.rchops[ci]])
+                    except ValueError:
+                        if dc < d_last:
+                            rec.cls('history_rejected')
+                        else:
+                            ctx.viol_once('FrameSequence.chop', 'raises', f'{path} raises ValueError although the chopper is not upstream of the frame at {d_last} m')
+                        ctx.verify('FrameSequence.chop', path + ' (refused)')
+                        continue
+                    if dc < d_last:
+                        rec.cls('history_backward_accepted')  # allowed reading; no reference for the frame's distance
+                        ctx.verify('FrameSequence.chop', path)
+                        continue
+                    if dc == d_last:
+                        rec.cls('history_same_distance_chop')
+                    new_meta = [*node['meta'], (dc, (*applied, ci))]
+                    site = 'FrameSequence.chop'
+                else:
+                    dp = d_last if arg == 'same' else float(arg)
+                    if dp < d_last:
+                        continue
+                    if dp == d_last:
+                        rec.cls('history_zero_step')
+                    path = f'{node["path"]}.propagate_to({dp})'
+                    new = node['seq'].propagate_to(m(dp))
+                    new_meta = [*node['meta'], (dp, applied)]
+                    site = 'FrameSequence.propagate_to'
+                # nothing obtained earlier may have changed - checked before anything else looks at the new object
+                ctx.verify(site, path)
+                if len(new) != len(new_meta) or len(node['seq']) != len(node['meta']):
+                    ctx.viol_once(site, 'frame_count', f'{path}: {len(new)} frames, expected {len(new_meta)}; parent has {len(node["seq"])}')
+                    raise Abort
+                fd = float(new[-1].distance.to(unit='m').value)
+                if fd != new_meta[-1][0]:
+                    ctx.viol_once(site, 'frame_distance', f'{path}: last frame at {fd} m, expected {new_meta[-1][0]} m')
+                check_against_model(ctx, new[-1], new_meta[-1][1], f'{path} last frame', site, lattice=True)
+                ctx.watch(new, path)
+                child = {'seq': new, 'meta': new_meta, 'path': path, 'depth': depth}
+                nodes.append(child)
+                nxt.append(child)
+                rec.cls('history_node')
+                observe(child)
+        frontier = nxt
+    # ---- every frame of every sequence once more against its reference
+    seen = set()
+    for node in nodes:
+        for k, (d, applied) in enumerate(node['meta']):
+            f = node['seq'][k]
+            if id(f) in seen:
+                continue
+            seen.add(id(f))
+            fd = float(f.distance.to(unit='m').value)
+            if fd != d:
+                ctx.viol_once('FrameSequence.chop', 'frame_distance', f'{node["path"]}: frame {k} at {fd} m, expected {d} m')
+                continue
+            check_against_model(ctx, f, applied, f'{node["path"]} frame {k} (end of history)', 'FrameSequence.chop', lattice=False)
+    ctx.verify('FrameSequence.chop', 'the final re-comparison')
+    rec.cls('history_recompared', len(seen))
+    rec.nontrivial += 1
